@@ -1,11 +1,128 @@
-//! C20 — (not built yet)
-#![allow(unused_imports, unused_variables, dead_code)]
+//! C20 — underlying I/O failures surface as errors, never as silently wrong results (aggregate).
+//! Reader-level ops and oracles live in the reader slices (text `tstream`/`tretry`/… with F/P steps
+//! in c07.rs, binary `bstream`/`bcalls`/`bskip`/`bread` in c08.rs).  This module assembles their
+//! generators and adds the fault oracle for the reader-based DESERIALIZERS:
+//!   x-fde-text <ty> <cap> <hex>   fault-free result first, then a transient (F) and a persistent (P)
+//!   x-fde-bin  <ty> <cap> <hex>   fault at EVERY read-call index: each faulty run must be an error or
+//!                                 equal the fault-free value, a persistent fault must end in an error
+//!                                 unless the value was already complete, nothing panics
 use crate::common::*;
+use crate::docgen::{self, *};
+use crate::sched::{SchedReader, Step};
+use crate::tyseed::{err_class, parse_ty, show_ty, doc_ty, Ty, TySeed};
+use jomini::binary::{FailedResolveStrategy, TokenReader as BinReader};
+use jomini::text::TokenReader as TextReader;
+use jomini::{BinaryDeserializer, TextDeserializer};
+use serde::de::DeserializeSeed;
 
-pub fn gen(g: &mut Gen) {}
+fn run_text(ty: &Ty, cap: usize, d: &[u8], steps: Vec<Step>) -> (Result<String, String>, usize, usize) {
+    let rd = SchedReader::new(d, steps);
+    let tr = TextReader::builder().buffer_len(cap).build(rd);
+    let mut de = TextDeserializer::from_windows1252_reader(tr);
+    let r = TySeed(ty).deserialize(&mut de).map_err(|e| e.to_string());
+    (r, 0, 0)
+}
+
+fn run_bin(ty: &Ty, cap: usize, d: &[u8], steps: Vec<Step>) -> Result<String, String> {
+    let res = super::c05::resolver();
+    let rd = SchedReader::new(d, steps);
+    let mut b = BinaryDeserializer::builder_flavor(super::c05::Flavor);
+    b.on_failed_resolve(FailedResolveStrategy::Stringify);
+    b.reader_config(BinReader::builder().buffer_len(cap));
+    let mut de = b.from_reader(rd, &res);
+    TySeed(ty).deserialize(&mut de).map_err(|e| e.to_string())
+}
+
+fn count_calls(d: &[u8], step: usize, cap: usize, text: bool, ty: &Ty) -> usize {
+    // number of read calls of the fault-free run: replay with a counting reader
+    struct Counting<'a> { inner: SchedReader<'a>, calls: std::rc::Rc<std::cell::Cell<usize>> }
+    impl<'a> std::io::Read for Counting<'a> { fn read(&mut self, b: &mut [u8]) -> std::io::Result<usize> { self.calls.set(self.calls.get() + 1); self.inner.read(b) } }
+    let calls = std::rc::Rc::new(std::cell::Cell::new(0));
+    let rd = Counting { inner: SchedReader::new(d, vec![Step::Repeat(step)]), calls: calls.clone() };
+    if text {
+        let tr = TextReader::builder().buffer_len(cap).build(rd);
+        let mut de = TextDeserializer::from_windows1252_reader(tr);
+        let _ = TySeed(ty).deserialize(&mut de);
+    } else {
+        let res = super::c05::resolver();
+        let mut b = BinaryDeserializer::builder_flavor(super::c05::Flavor);
+        b.on_failed_resolve(FailedResolveStrategy::Stringify);
+        b.reader_config(BinReader::builder().buffer_len(cap));
+        let mut de = b.from_reader(rd, &res);
+        let _ = TySeed(ty).deserialize(&mut de);
+    }
+    calls.get()
+}
 
 pub fn exec(w: &[&str], obs: &mut Obs) -> Option<String> {
-    None
+    let case = w.join(" ");
+    match w {
+        [op @ ("x-fde-text" | "x-fde-bin"), ty, cap, step, h] => {
+            let text = *op == "x-fde-text";
+            let ty = parse_ty(ty)?;
+            let cap: usize = cap.parse().ok()?;
+            let step: usize = step.parse().ok()?;
+            let d = unhex(h)?;
+            let run = |steps: Vec<Step>| -> Result<String, String> { if text { run_text(&ty, cap, &d, steps).0 } else { run_bin(&ty, cap, &d, steps) } };
+            let clean = run(vec![Step::Repeat(step)]);
+            let ncalls = count_calls(&d, step, cap, text, &ty).min(60);
+            let mut faults = 0;
+            for i in 0..ncalls {
+                for persistent in [false, true] {
+                    let mut steps: Vec<Step> = (0..i).map(|_| Step::Give(step)).collect();
+                    steps.push(if persistent { Step::FailForever } else { Step::Fail });
+                    steps.push(Step::Repeat(step));
+                    let r = run(steps);
+                    faults += 1;
+                    match (&r, &clean) {
+                        (Ok(v), Ok(c)) if v == c => {
+                            // allowed only if the fault was never needed (value complete before the failing call) --
+                            // with a fault inside the fault-free run's call count this means the error was swallowed
+                            // unless the failing call was the trailing end-of-input probe
+                            if i + 1 < ncalls { obs.violation("fault-swallowed", &case, &format!("fault at read call {} (persistent={}) of {}: still Ok with the full value; the error was not reported", i, persistent, ncalls)); }
+                        }
+                        (Ok(v), _) => { obs.violation("fault-wrong-value", &case, &format!("fault at read call {} (persistent={}): Ok({}) but fault-free result is {:?}", i, persistent, v, clean)); }
+                        (Err(e), _) => {
+                            let io = e.to_lowercase().contains("injected") || e.to_lowercase().contains("i/o") || e.to_lowercase().contains("io error") || e.to_lowercase().contains("failed to read");
+                            if !io { obs.count("fault:error-not-io-text"); }
+                        }
+                    }
+                }
+            }
+            obs.count(if text { "fde-text" } else { "fde-bin" });
+            Some(format!("ok {} {}", match &clean { Ok(_) => "clean-ok".to_string(), Err(e) => err_class(e) }, faults))
+        }
+        _ => None,
+    }
+}
+
+pub fn gen_de_fault(g: &mut Gen) {
+    let n = g.budget(400, 8000);
+    for _ in 0..n {
+        let ghosts = g.rng.chance(1, 3);
+        let doc = docgen::gen_doc(&mut g.rng, &DocCfg { max_fields: 4, ghosts, ..DocCfg::shared() });
+        let step = *g.rng.pick(&[1usize, 2, 3, 5, 8]);
+        let cap = *g.rng.pick(&[64usize, 128, 4096]);
+        let ty = doc_ty(&mut g.rng, &doc, false);
+        let b = docgen::render_binary(&mut g.rng, &BinCfg::default(), &doc);
+        if b.len() <= 200 { g.emit(format!("x-fde-bin {} {} {} {}", show_ty(&ty), cap, step, hex(&b))); }
+        let doc = docgen::gen_doc(&mut g.rng, &DocCfg { max_fields: 4, ..DocCfg::save_style() });
+        let ty = doc_ty(&mut g.rng, &doc, true);
+        let t = docgen::render_layout(&mut g.rng, &LayoutCfg { max_left_pad: 2, max_trailing: 2, ..LayoutCfg::reader_safe() }, &docgen::lexemes(&doc));
+        if t.len() <= 200 { g.emit(format!("x-fde-text {} {} {} {}", show_ty(&ty), cap, step, hex(&t))); }
+    }
+    // the ghost-object shape of the repaired defect (binary/de.rs next_key_seed)
+    for step in [1usize, 2, 3] {
+        let d = [0x00u8, 0x20, 1, 0, 0x0c, 0, 1, 0, 0, 0, 3, 0, 4, 0, 0x07, 0x20, 1, 0, 0x0c, 0, 2, 0, 0, 0, 0x0e, 0x20, 1, 0, 0x0c, 0, 3, 0, 0, 0];
+        g.emit(format!("x-fde-bin st(a:i64;b:i64;name:opt(i64)) 64 {} {}", step, hex(&d)));
+    }
+    g.count("de-fault-every-read-call");
+}
+
+pub fn gen(g: &mut Gen) {
+    super::c07::gen_fault(g);
+    super::c08::gen_fault(g);
+    gen_de_fault(g);
 }
 
 pub fn tables() -> String {
